@@ -340,6 +340,15 @@ theorem reserved_by_decoded (name : String) : (tokenKind name = .identifier) ↔
       all_goals rfl
     · rfl
 
+/-- the same for escaped spellings: a reserved word never yields IDENTIFIER, whatever the spelling -/
+theorem reserved_by_decoded_spelled (escaped : Bool) (name : String) :
+    (tokenKindSpelled escaped name = .identifier) ↔ isReserved name = false := by
+  unfold tokenKindSpelled
+  by_cases h : tokenKind name = .identifier
+  · simp [h, (reserved_by_decoded name).mp h]
+  · have hr : ¬ isReserved name = false := fun hf => h ((reserved_by_decoded name).mpr hf)
+    cases escaped <;> simp [h, hr]
+
 /-- the escaped spellings of the seeded examples decode to reserved words -/
 example : (decode "\\u0069f".toList).map String.ofList = some "if" ∧ (decode "v\\u0061r".toList).map String.ofList = some "var"
     ∧ isReserved "if" = true ∧ tokenKind "if" = .keyword "if" ∧ tokenKind "let" = .identifier := by decide
